@@ -306,7 +306,7 @@ static Result check_slab(const J &c)
       if (out[0] < G.Ts - tau)
         {
           // listed finding: the slab plate model uses 273.15 K as its cold end member whatever the configured surface temperature
-          const bool listed = kind == "plate model" && G.Ts > 273.15 && out[0] >= 273.15 - 1e-6;
+          const bool listed = kind == "plate model" && G.Ts > 273.15 && out[0] >= 273.15 - tau;
           return Result::fail(listed ? "slab-plate-model-cold-end-273" : "slab-below-surface-temperature/" + kind, "slab '" + kind + "' returns " + fmt(out[0]) + " at depth " + fmt(depth) + ", colder than the surface temperature " + fmt(G.Ts) + "; model " + m.dump());
         }
     }
